@@ -20,6 +20,7 @@ import (
 	"sort"
 	"strings"
 	"sync"
+	"syscall"
 	"time"
 
 	"github.com/Shopify/sarama/internal/vfcore"
@@ -133,7 +134,95 @@ func (o *vfxOutcome) vfxClass() string {
 	return "ok"
 }
 
-const vfxWatchdog = 20 * time.Second
+// The hang oracle is not a wall-clock limit (a loaded or stalled machine must never
+// produce a verdict): every vfxWatchTick of wall time a watchdog looks at the process.
+// A case is a hang when (a) the process has burnt vfxWatchCPU of CPU time since the
+// call into sarama began (a loop: a held case needs milliseconds), or (b) at three
+// consecutive ticks no goroutine other than the watchdog is running or runnable while
+// the call has still not returned (everything is blocked: a deadlock, e.g. in a
+// decompressor's worker pool). A process that is merely not scheduled accumulates no
+// CPU time and shows its goroutine as runnable, so it is left alone.
+const (
+	vfxWatchTick = 20 * time.Second
+	vfxWatchCPU  = 20 * time.Second
+)
+
+func vfxProcessCPU() time.Duration {
+	var ru syscall.Rusage
+	if syscall.Getrusage(syscall.RUSAGE_SELF, &ru) != nil {
+		return 0
+	}
+	return time.Duration(ru.Utime.Nano() + ru.Stime.Nano())
+}
+
+type vfxWatch struct {
+	mu       sync.Mutex
+	timer    *time.Timer
+	done     bool
+	cpuStart time.Duration
+	idle     int
+	desc     string
+}
+
+func vfxStartWatch(desc string) *vfxWatch {
+	w := &vfxWatch{desc: desc, cpuStart: vfxProcessCPU()}
+	w.timer = time.AfterFunc(vfxWatchTick, w.vfxWatchFire)
+	return w
+}
+
+func (w *vfxWatch) vfxStop() {
+	w.mu.Lock()
+	w.done = true
+	w.timer.Stop()
+	w.mu.Unlock()
+}
+
+func (w *vfxWatch) vfxWatchFire() {
+	w.mu.Lock()
+	defer w.mu.Unlock()
+	if w.done {
+		return
+	}
+	cpu := vfxProcessCPU() - w.cpuStart
+	if cpu >= vfxWatchCPU {
+		vfxHang(w.desc, fmt.Sprintf("the process burnt %v of CPU time inside one call", cpu.Round(time.Millisecond)))
+	}
+	stacks := vfcore.Stacks()
+	if vfxAllBlocked(stacks) {
+		w.idle++
+		if w.idle >= 3 {
+			vfxHang(w.desc, fmt.Sprintf("no goroutine was running or runnable at %d consecutive looks %v apart and the call has not returned", w.idle, vfxWatchTick))
+		}
+	} else {
+		w.idle = 0
+	}
+	w.timer.Reset(vfxWatchTick)
+}
+
+// vfxAllBlocked reports whether, in a dump of all goroutines, no goroutine other than
+// the watchdog's own and the runtime's signal receiver is running, runnable or in a
+// system call.
+func vfxAllBlocked(stacks string) bool {
+	for _, g := range strings.Split(stacks, "\n\n") {
+		nl := strings.IndexByte(g, '\n')
+		if nl < 0 || !strings.HasPrefix(g, "goroutine ") {
+			continue
+		}
+		head := g[:nl]
+		if strings.Contains(g, "vfxWatchFire") || strings.Contains(g, "os/signal.signal_recv") || strings.Contains(g, "os/signal.loop") {
+			continue
+		}
+		i := strings.IndexByte(head, '[')
+		if i < 0 {
+			continue
+		}
+		state := head[i+1:]
+		if strings.HasPrefix(state, "running") || strings.HasPrefix(state, "runnable") || strings.HasPrefix(state, "syscall") || strings.Contains(state, "(active)") {
+			return false
+		}
+	}
+	return true
+}
 
 var vfxAllocSample = []metrics.Sample{{Name: "/gc/heap/allocs:bytes"}}
 
@@ -145,20 +234,12 @@ func vfxAllocNow() uint64 {
 	return vfxAllocSample[0].Value.Uint64()
 }
 
-var vfxCurrent struct {
-	sync.Mutex
-	desc string
-}
-
 // vfxGuarded runs f (one call into sarama) under recover, a watchdog and the
 // allocation counter. Nothing of the harness allocates between the two counter reads
 // except f itself.
 func vfxGuarded(desc string, f func() error) (o vfxOutcome) {
-	vfxCurrent.Lock()
-	vfxCurrent.desc = desc
-	vfxCurrent.Unlock()
-	wd := time.AfterFunc(vfxWatchdog, vfxHang)
-	defer wd.Stop()
+	wd := vfxStartWatch(desc)
+	defer wd.vfxStop()
 	defer func() {
 		if p := recover(); p != nil {
 			o.Alloc = 0
@@ -173,14 +254,11 @@ func vfxGuarded(desc string, f func() error) (o vfxOutcome) {
 	return o
 }
 
-// vfxHang is called by the watchdog: the case has been inside sarama for 20 s. A Go
+// vfxHang is called by the watchdog (see vfxWatchTick). A Go
 // loop cannot be interrupted from outside, so the process reports and dies; the driver
 // attributes the death to the persisted case ("fatal:fatal error: hang ...").
-func vfxHang() {
-	vfxCurrent.Lock()
-	d := vfxCurrent.desc
-	vfxCurrent.Unlock()
-	fmt.Fprintf(os.Stdout, "fatal error: hang: C10 case still running after %v (%s)\n\n%s\n", vfxWatchdog, d, vfcore.Stacks())
+func vfxHang(desc, why string) {
+	fmt.Fprintf(os.Stdout, "fatal error: hang: C10 case does not return (%s): %s\n\n%s\n", desc, why, vfcore.Stacks())
 	os.Exit(3)
 }
 
